@@ -60,6 +60,18 @@ CHECKS = {
         note="Read errors are injected through a sys.addaudithook shim (root ignores permissions); trusts TLC, the "
              "materialiser and the JSON projection.",
         ref="5/C01"),
+    "C13": dict(
+        technique="TLA+ view-agreement requirement over opaque labels (Trace_C13.tla: equality of families of item sets, "
+                  "exit statuses, summary counters); project states enumerated / sampled by TLC (Lint.tla, Inventory.tla); "
+                  "TLC trace validation of lint --json/--plain/--lines/--quiet and lint-file runs",
+        text="For every enumerated project state the four lint formats and lint-file (single files, all files, mixed "
+             "subsets with directories, three working directories and path spellings) are run; TLC checks equal exit "
+             "statuses, that plain and lines name exactly the JSON's offenders per category, that the JSON counters "
+             "match its own lists, that --quiet is silent and that lint-file reports exactly the per-file problems of "
+             "the covered files among its arguments.",
+        note="Text formats are parsed structurally (section / paragraph / bullet; path: message [id]) with opaque labels; "
+             "the reference for all views is the same state's lint --json, whose own correctness is C01's subject.",
+        ref="5/C13"),
     "C03": dict(
         technique="TLA+ requirement CoverReq (three-valued: must / must not / unpinned) vs walk-with-pruning mechanism "
                   "model-checked by TLC; TLC-enumerated directory-context x name-class x type x VCS-wish nodes built as "
